@@ -9,4 +9,5 @@ let table = [
   ("bn", Model.entry_bn2);
   ("evm", Model.entry_evm);
   ("recover", Model.entry_recover);
+  ("guards", Model.entry_guards);
 ]
